@@ -732,6 +732,7 @@ func C11(c *core.Ctx) {
 	checkSamWorkerStateless(c, tabs, "R1")
 	checkFastaWorkerStateless(c, tabs, "R1")
 	c11Structure(c)
+	c11Forms(c, tabs)
 }
 
 // checkSamWorkerStateless: several queries through ONE getVariantsSam worker; no state may leak from one query to
@@ -944,4 +945,68 @@ func c04AmbiguousReference(c *core.Ctx, tabs *Tables) {
 	}
 	c.Count("ambiguous_reference_pairs_evaluated", n)
 	c.Ob(key, len(bad) == 0, funcPos(c, "pkg/variants", "CDSRegion2fromGFF"), "%s", first(bad, 3))
+}
+
+// c11Forms: the two FASTA forms of one SAM record differ in what stands where the query has no base - N in the pair
+// `sam variants` works on (and `sam toPairAlign` writes), '-' at the ends of the `sam toMultiAlign` row. A query that
+// ends inside a codon is the place where that difference can reach the mutation list: the record is interpreted through
+// blockToPairwiseAlignment and through blockToFastaRecord, GetVariantsPair is interpreted on both forms with the same
+// regions, and the two lists must be equal. One obligation per query (the covered bases of its last, partial codon), so
+// that each disagreement is a finding of its own.
+func c11Forms(c *core.Ctx, tabs *Tables) {
+	rg := c.LookupFunc("pkg/variants", "RegionsFromGFF")
+	if rg == nil {
+		c.Und("R12/forms-agree", token.NoPos, "UNRESOLVED variants.RegionsFromGFF")
+		return
+	}
+	ev := newEval(c)
+	rv, err := ev.CallFunc(rg, mkGFF(c, []*eval.StructVal{mkGFFFeature(c, "CDS", 1, 9, "+", 0, map[string]string{"ID": "c1", "Name": "g1"})}), eval.S(annoRef))
+	t, ok := rv.(eval.Tuple)
+	if err != nil || !ok || len(t) != 3 {
+		c.Und("R12/forms-agree", rg.Pos(), "cannot build the regions: %v", err)
+		return
+	}
+	regs := []eval.Value{t[0], t[1]}
+	n := 0
+	// the gene is 1..9 (ATG CCC AAA); the query covers bases 1..7 or 1..8 and differs from the reference in the covered
+	// bases of codon 3
+	for _, cut := range []int{7, 8} {
+		var tails []string
+		for _, x := range "ACGT" {
+			if cut == 7 {
+				tails = append(tails, string(x))
+				continue
+			}
+			for _, y := range "ACGT" {
+				tails = append(tails, string(x)+string(y))
+			}
+		}
+		for _, tail := range tails {
+			if tail == annoRef[6:cut] {
+				continue
+			}
+			key := fmt.Sprintf("R12/forms-agree/query-ends-after-base-%d-of-the-gene/last-codon-%s", cut, tail)
+			rec := samRec{Name: "q", Pos: 0, Cigar: fmt.Sprintf("%dM", cut), Seq: annoRef[:6] + tail}
+			refRow, qryRow, _, _, _, err := evalPairAlign(c, []samRec{rec}, annoRef, false)
+			if err != nil {
+				c.Und(key, funcPos(c, "pkg/sam", "blockToPairwiseAlignment"), "cannot build the pair: %v", err)
+				continue
+			}
+			row, _, _, err := evalMultiAlignRow(c, []samRec{rec}, len(annoRef), false, false, 1, len(annoRef))
+			if err != nil {
+				c.Und(key, funcPos(c, "pkg/sam", "blockToFastaRecord"), "cannot build the row: %v", err)
+				continue
+			}
+			a, err1 := evalVariantsPairWith(c, tabs, refRow, qryRow, nil, regs)
+			b, err2 := evalVariantsPairWith(c, tabs, annoRef, row, nil, regs)
+			if err1 != nil || err2 != nil {
+				c.Und(key, funcPos(c, "pkg/variants", "GetVariantsPair"), "cannot evaluate: %v %v", err1, err2)
+				continue
+			}
+			n++
+			c.Ob(key, strings.Join(a.all, "|") == strings.Join(b.all, "|"), funcPos(c, "pkg/variants", "getAAsPair"),
+				"SAM record %s %s %s on reference %s (gene 1..9): the pair form %s / %s gives %v, the toMultiAlign row %s gives %v", rec.Cigar, rec.Seq, "POS=1", annoRef, refRow, qryRow, a.all, row, b.all)
+		}
+	}
+	c.Count("form_pairs_evaluated", n)
 }
